@@ -695,6 +695,17 @@ class TaskDispatcher(object):
                         self.orphaned_response_retention_ms
                     )
                     self.orphaned_responses[correlation_id] = (message, timeout_id)
+
+                    """
+                    Make sure the periodic check that matches orphaned responses
+                    with their subsequently reconstructed Tasks is running. It
+                    is otherwise only scheduled when a State event is dispatched,
+                    so a response arriving after the redelivered Task event was
+                    dispatched but before its pending request was registered
+                    (e.g. whilst the Task waits out a retry delay) would never
+                    be matched if no further State events arrive.
+                    """
+                    self.schedule_orphaned_response_handler()
             else:
                 """
                 If the uptime is more than the retention period for orphaned
